@@ -32,8 +32,9 @@ def parts_of(v):
     return None
 
 
-def timeval(fields, tz_none, off):
-    return ObjV("timeval", info={"fields": fields, "tz_none": tz_none, "off": off})
+def timeval(fields, tz_none, off, year=None):
+    return ObjV("timeval", info={"fields": fields, "tz_none": tz_none, "off": off,
+                                 "year": year if year is not None else z3.Const("value_year", I)})
 
 
 def real_of(ex, v):
@@ -103,6 +104,8 @@ class TimeTheory(ObjTheory):
         if isinstance(recv, ObjV) and recv.role == "timeval":
             if attr in recv.info["fields"]:
                 return Z("int", recv.info["fields"][attr])
+            if attr == "year":
+                return Z("int", recv.info["year"])
             if attr == "tzinfo":
                 return ObjV("tz", info={"none": recv.info["tz_none"], "off": recv.info["off"]})
             return BoundM(recv, attr)
@@ -264,7 +267,7 @@ class TimeTheory(ObjTheory):
             if name == "replace" and not args and set(kwargs) == {"tzinfo"}:
                 tz = kwargs["tzinfo"]
                 if isinstance(tz, Conc) and tz.v is None:
-                    return timeval(recv.info["fields"], z3.BoolVal(True), z3.RealVal(0))
+                    return timeval(recv.info["fields"], z3.BoolVal(True), z3.RealVal(0), recv.info["year"])
                 raise Untranslatable("replace(tzinfo=<non-None>)")
             if name == "astimezone":
                 raise Untranslatable("astimezone changes the fields (calendar arithmetic is outside T_time)")
